@@ -229,6 +229,43 @@ def m_rename(it, args, kwargs):
     return None
 
 
+def m_fdopen(it, args, kwargs):
+    """os.fdopen(fd, mode): a file object over an open descriptor.  write(data) writes everything or fails (the file
+    object loops over short writes); leaving the `with` block / close() closes the descriptor (may fail)."""
+    fd = args[0]
+    f = VObj('file')
+    f.fields['fd'] = fd
+    f.fields['closed'] = False
+
+    def do_write(i, a, k):
+        ctx = i.ctx
+        fault(i, None, 'write')
+        bt = bytes_term(a[0])
+        fds = G(ctx, 'fs_fds')
+        p = PV.s(fds.arr[kenc(fd)])
+        files = G(ctx, 'fs_files')
+        cur = PV.by(files.arr[p])
+        ctx.ghost['fs_files'] = VDict(arr=z3.Store(files.arr, p, PV.PBytes(z3.Concat(cur, bt))))
+        return SInt(z3.Length(bt))
+
+    def do_close(i, a=None, k=None):
+        if f.fields['closed'] is True:
+            return None
+        f.fields['closed'] = True
+        return m_close(i, [fd], {})
+
+    def hook(it_, obj, attr):
+        if attr == 'write':
+            return pv.VBuiltin('file.write', do_write)
+        if attr == 'close':
+            return pv.VBuiltin('file.close', do_close)
+        return UNBOUND
+    f.attr_hook = hook
+    f.with_enter = lambda i: f
+    f.with_exit = lambda i: do_close(i)
+    return f
+
+
 def m_unlink(it, args, kwargs):
     ctx = it.ctx
     fault(it, None, 'unlink')
@@ -408,6 +445,8 @@ def install(world):
     M['os.write'] = m_write
     M['os.close'] = m_close
     M['os.rename'] = m_rename
+    M['os.replace'] = m_rename
+    M['os.fdopen'] = m_fdopen
     M['os.unlink'] = m_unlink
     M['os.listdir'] = m_listdir
     M['os.uname'] = m_uname
@@ -423,7 +462,7 @@ def install(world):
     from .. import loops
     for m, gs in {'makedirs': ['fs_dirs', 'fs_faults'], 'mkstemp': ['fs_files', 'fs_tmp', 'fs_fds', 'fs_ntmp', 'fs_faults'],
                   'write': ['fs_files', 'fs_faults'], 'close': ['fs_fds', 'fs_faults'],
-                  'rename': ['fs_files', 'fs_faults'], 'unlink': ['fs_files', 'fs_faults'],
+                  'rename': ['fs_files', 'fs_faults'], 'replace': ['fs_files', 'fs_faults'], 'fdopen': [], 'unlink': ['fs_files', 'fs_faults'],
                   'stat': ['fs_faults'], 'open': ['fs_faults'], 'read': ['fs_faults'], 'listdir': ['fs_faults'],
                   'compile': ['fs_pyc', 'fs_faults']}.items():
         loops.MODEL_GHOST.setdefault(m, [])
